@@ -25,6 +25,7 @@ struct value_spec
     int f = 1;               // finite integer value
     char const* tag = "fin"; // or "nan" "+inf" "-inf"
     bool wreq = true;        // ask the point for its weight
+    bool dz = false;         // multi channel: the map reports vanishing densities for this call (the weight is infinite); needs wreq
 };
 
 template <typename T> inline T value_of(value_spec const& v, int vexp = 0)
@@ -127,6 +128,8 @@ struct traced_map
             if (c->cfg.w[i] == 0) p = T(3);                                      // disabled channel: irrelevant
             de[i] = p * scale;
         }
+        // (the densities are asked for while the integrand of this call is still running - it requested the weight - so spec() is this call's)
+        if (c->spec().wreq && c->spec().dz) for (std::size_t i = 0; i != n; ++i) de[i] = T();
         c->last_dens = de;
         return std::ldexp(T(1), c->jac_pow); // common jacobian factor
     }
